@@ -229,9 +229,11 @@ func runC07(c *Ctx) {
 				}
 			}
 		}
-		c.check(okChain, "C07.classify", um, "cutField(Trim(data up to '#', spaces))", nil, "comment removal, then trimming, then the first field")
+		if !recExact {
+			c.check(okChain, "C07.classify", um, "cutField(Trim(data up to '#', spaces))", nil, "comment removal, then trimming, then the first field")
+		}
 		// the comment is cut exactly when a '#' exists (index >= 0, also at column 0)
-		if okChain {
+		if okChain && !recExact {
 			okCut, why := false, "the text handed to Trim is never the part in front of '#'"
 			if phi, isPhi := trim.Call.Args[0].(*ssa.Phi); isPhi {
 				for i, e := range phi.Edges {
